@@ -30,9 +30,9 @@ CHECK_TEXT = {
               "connection; _execute keeps the statement whose result is held. Known finding (DECIMAL(p,0)/HUGEINT fetched as Decimal) is printed.",
               "Trusted: DuckDB DESCRIBE reports the held result's types; A-SQLGLOT; A-WF. Bounded: description vs describe() vs fetched values over statement kinds."),
     "C07": _t("Exceptional postconditions of _execute/execute (error translation table, context unchanged, result reset, sqlstate set/reset, undefined variable before execution) are discharged on every raise path.",
-              "Trusted: which DuckDB exception class a cause produces (A-DUCK 1): bounded tier over missing/duplicate objects x transaction modes x closed connection."),
+              "Trusted: which DuckDB exception class a cause produces (A-DUCK 1): bounded tier over missing/duplicate objects x transaction modes x closed connection; the undefined-variable check is a regular expression (A-PY re), exercised in 8 placements relative to string literals."),
     "C08": _t("Parameter plumbing (_rewrite_with_params, execute order of inlining and binding, executemany once-per-set, paramstyle snapshot at connect) is discharged for all parameter containers and styles.",
-              "Trusted: the connector's quoting denotes the value and cannot terminate itself (A-SFC); `%` formatting (A-PY). Bounded adversarial values on the real stack."),
+              "Trusted: the connector's quoting denotes the value and cannot terminate itself (A-SFC); `%` formatting (A-PY). Bounded adversarial values on the real stack, incl. ==-equal values of different type (1/True/1.0) bound side by side, on a re-used cursor and across executemany rows, each against the statement with the literals written in."),
     "C13": _t("The fakesnow-side obligations (own DuckDB connection per connect shared by its cursors, COMMIT/ROLLBACK no-ops, conn.commit/rollback, statements run on the cursor's own connection) are discharged; "
               "atomicity/isolation are DuckDB's. Known finding: snapshot isolation hides another connection's COMMIT from a connection inside its own transaction.",
               "Trusted: DuckDB MVCC (A-DUCK 4). Bounded: interleavings of transactional scripts on two connections."),
@@ -40,7 +40,7 @@ CHECK_TEXT = {
               "is discharged for all arguments, flags and prior catalog states.",
               "Trusted: meaning of the seven SQL templates of connect (A-DUCK 3), matched syntactically. Bounded: the complete configuration product on the real stack."),
     "C16": _t("The no-op path of execute (nothing parsed or transformed, exactly the success select, only when configured) is discharged; execute_string is outside the verifier's subset and decided by the bounded tier only.",
-              "Trusted: re.match (A-PY), sqlglot parse/generate round trip (A-SQLGLOT 5). Bounded: execute_string vs one-by-one, nop pattern sets."),
+              "Trusted: re.match (A-PY), sqlglot parse/generate round trip (A-SQLGLOT 5). Bounded: execute_string vs one-by-one (with and without remove_comments, dollar-quoted literals holding comment markers), nop pattern sets."),
     "C20": _t("cli.split is proved to cut every argument list of the property's domain exactly after the target spec (loop invariant against a recursive scanner spec from the option table); "
               "patch() and cli.main are outside the subset: bounded only.",
               "Trusted: argparse for the parser built by arg_parser(); unittest.mock.patch. Bounded: exhaustive argv enumeration, six patch() exit modes."),
@@ -68,7 +68,7 @@ CHECK_TEXT = {
               "Known findings (4) printed.",
               "Not proof for the property as a whole: the information_schema / SHOW SQL is DuckDB's. Trusted: A-DUCK, A-SQLGLOT, A-WF, A-PURE."),
     "C10": _o("Deductive slice: every statement goes through the whole transform pipeline in the fixed order and a database created by a statement gets the macros the rewrites rely on; "
-              "VALUES columns are named COLUMN1..n; DATEADD of a day-or-larger part to a DATE is cast back to DATE; REGEXP_REPLACE long forms are rejected, short ones made global; TO_NUMBER's optional arguments are told apart as documented; TO_NUMBER/TO_DECIMAL/TO_NUMERIC and the TRY_ forms (dispatchers and helper) cast to DECIMAL(p default 38, s default 0) with CAST resp. TRY_CAST and reject a format argument; TO_DATE casts to DATE, TO_TIMESTAMP to TIMESTAMP (NTZ), TO_TIMESTAMP_NTZ parses with the ISO format; IDENTIFIER(x) is the unquoted identifier x; SAMPLE defaults to BERNOULLI; ARRAY_AGG (windowed or not) is wrapped in TO_JSON once; DATEADD over a string literal casts it to TIMESTAMP. "
+              "VALUES columns are named COLUMN1..n; DATEADD of a day-or-larger part to a DATE is cast back to DATE; REGEXP_REPLACE long forms are rejected, short ones made global; TO_NUMBER's optional arguments are told apart as documented; TO_NUMBER/TO_DECIMAL/TO_NUMERIC and the TRY_ forms (dispatchers and helper) cast to DECIMAL(p default 38, s default 0) with CAST resp. TRY_CAST and reject a format argument; TO_DATE casts to DATE, TO_TIMESTAMP to TIMESTAMP (NTZ), TO_TIMESTAMP_NTZ parses with the ISO format; IDENTIFIER(x) is the unquoted identifier x; SAMPLE defaults to BERNOULLI; ARRAY_AGG (windowed or not) is wrapped in TO_JSON once; DATEADD / DATEDIFF over string literals cast them to TIMESTAMP; ARRAY_AGG WITHIN GROUP orders the aggregate by exactly the given keys; only the 256-bit SHA2 family is answered (sha256 / unhex(sha256)). "
               "Bounded: each function of the property x argument lists x syntactic contexts against Snowflake's documented results. Known findings (4) printed.",
               "Not proof for the property as a whole: value/type semantics of each rewrite are DuckDB's on the rewritten SQL; the other node-level rewrite functions are not under contract (A-TX)."),
     "C11": _o("Deductive slice: the order-sensitive JSON rewrites are applied in the order their correctness depends on, for every statement; v['k'] / v[n] become the extraction of $.k / $[n]; every path extraction is parenthesised whatever its parent; "
